@@ -111,7 +111,7 @@ template <class T>
 IMATH_HOSTDEVICE constexpr inline int
 floor (T x) IMATH_NOEXCEPT
 {
-    return (x >= 0) ? int (x) : -(int (-x) + (-x > int (-x)));
+    return (x >= 0) ? int (x) : -int (-x) - (-x > int (-x));
 }
 
 template <class T>
